@@ -11,6 +11,7 @@ RULE = ('random histories of the grammar setters*;bake+;(init+;exchange+)* over 
         'model term none <=> attribute None, equal terms => equal content hashes; oracle: round trip at every stage x '
         'continue both objects; non-trivial = history with a restore before the last stage')
 RULE = RULE + '; exchanges with recalculate=False and other parameters, setters after the bake (then saved, then baked again), re-assignment of wall subsets, separate incoming sampling in the multi-direction pool'
+RULE = RULE + '; completed Kang simulations in rooms anywhere in space (corner at the origin, random offset, source on coordinate planes, source at the origin): restored object compared through receiver responses of every order with and without direct sound, patch energies, source and to_dict'
 ASSUMPTIONS = ['equal terms denote equal arrays: kernels are deterministic pure functions (numerical correspondence); tolist/np.array and the pyfar .far codec are library code tied by the hashes',
                'model footprints tied to the source by the generated read/write sets (Generated/Lifecycle.lean)']
 EXPLANATION = 'restored and original differ at most in the unsaved _source; identical after the next init; receiver collection identical. D8 (direct sound after restore) is a known finding.'
@@ -95,16 +96,64 @@ def check_roundtrip(ctx, pool, td, stages=None):
                     ctx.violation('restored-diverges', 'receiver curve after restore (%s at %s) differs' % (how, stage), inp, None, 'bit-identical')
 
 
-def check_kang_roundtrip(ctx, rng):
-    """The same for a completed Kang simulation."""
+def _same(a, b):
+    if isinstance(a, dict) and isinstance(b, dict):
+        return a.keys() == b.keys() and all(_same(a[k], b[k]) for k in a)
+    if isinstance(a, (list, tuple)) and isinstance(b, (list, tuple)):
+        return len(a) == len(b) and all(_same(x, y) for x, y in zip(a, b))
+    if a is None or b is None:
+        return a is None and b is None
+    try:
+        a_, b_ = np.asarray(a), np.asarray(b)
+        if a_.dtype == object or b_.dtype == object:
+            return a_.shape == b_.shape and all(_same(x, y) for x, y in zip(a_.ravel().tolist(), b_.ravel().tolist()))
+        return a_.shape == b_.shape and bool(np.array_equal(a_, b_))
+    except Exception:
+        return a == b
+
+
+def check_kang_roundtrip(ctx, rng, fixed=None, place=None):
+    """The same for a completed Kang simulation: rooms anywhere in space (also centred on the origin, the source then
+    on coordinate planes or at the origin itself), restored object compared through everything the original offers."""
     sp = common.import_repo()
     sides = [float(x) for x in rng.integers(2, 4, size=3)]
-    walls = sp.testing.shoebox_room_stub(*sides)
-    src = sp.geometry.SoundSource(scenes.gen_point_inside(rng, sides), [0, 1, 0], [0, 0, 1])
-    rad = sp.RadiosityKang(walls, 1.0, 2, 0.05, speed_of_sound=343., sampling_rate=500, absorption=float(rng.uniform(0.05, 0.5)))
+    place = int(rng.integers(0, 4)) if place is None else place          # 0: corner at origin, 1: random offset, 2/3: source on planes / at origin
+    rel = rng.uniform(0.25, 0.75, size=3) * np.array(sides)
+    if place == 0:
+        origin = np.zeros(3)
+    elif place == 1:
+        origin = np.round(rng.uniform(-4, 4, size=3), 2)
+    else:
+        origin = -rel
+        if place == 2:
+            origin[int(rng.integers(0, 3))] += float(rng.uniform(0.1, 0.4))
+    if fixed is not None:
+        sides, origin, fsrc = [float(x) for x in fixed[0]], np.array(fixed[1], dtype=float), np.array(fixed[2], dtype=float)
+        place = -1
+    ctx.count('kang_roundtrip_place_%d' % place)
+    walls = [sp.geometry.Polygon(w.pts + origin, w.up_vector, w.normal) for w in sp.testing.shoebox_room_stub(*sides)]
+    spos = origin + rel
+    if place == 3:
+        spos = np.zeros(3)
+    if fixed is not None:
+        spos = fsrc
+    src = sp.geometry.SoundSource(spos, [0, 1, 0], [0, 0, 1])
+    K = 2
+    rad = sp.RadiosityKang(walls, 1.0, K, 0.05, speed_of_sound=343., sampling_rate=500, absorption=float(rng.uniform(0.05, 0.5)))
     rad.run(src)
-    rec = sp.sound_object.Receiver(scenes.gen_point_inside(rng, sides), [0, 1, 0], [0, 0, 1])
-    ir = rad.energy_at_receiver(rec)
+    rec = sp.sound_object.Receiver(origin + rng.uniform(0.2, 0.8, size=3) * np.array(sides), [0, 1, 0], [0, 0, 1])
+    inp = {'sides': sides, 'origin': origin.tolist(), 'source': spos.tolist()}
+
+    def probes(r):
+        out = {'default': r.energy_at_receiver(rec)}
+        out['no_direct'] = r.energy_at_receiver(rec, ignore_direct=True)
+        for k in range(K + 1):
+            out['order_%d' % k] = r.energy_at_receiver(rec, max_order_k=k)
+        out['E'] = [np.array(p.E_matrix) for p in r.patch_list]
+        out['source'] = None if getattr(r, 'source', None) is None else np.array(r.source.position, dtype=float)
+        out['dict'] = r.to_dict()
+        return out
+    ref = probes(rad)
     ctx.oracle_evals += 1
     with tempfile.TemporaryDirectory(dir='/var/tmp') as td:
         for how in ('dict', 'file'):
@@ -114,12 +163,14 @@ def check_kang_roundtrip(ctx, rng):
                 else:
                     rad.write(os.path.join(td, 'k.far'))
                     r2 = sp.RadiosityKang.from_read(os.path.join(td, 'k.far'))
-                ir2 = r2.energy_at_receiver(rec)
+                got = probes(r2)
             except Exception as e:
-                ctx.violation('kang-restore', 'restoring (%s) a completed Kang simulation fails: %s' % (how, type(e).__name__), {'sides': sides}, repr(e)[:200], None)
+                ctx.violation('kang-restore', 'restoring (%s) a completed Kang simulation, or using the restored one, fails: %s' % (how, type(e).__name__), inp, repr(e)[:200], None)
                 continue
-            if not np.array_equal(ir, ir2):
-                ctx.violation('kang-restore', 'restored Kang simulation gives a different receiver response', {'sides': sides}, None, 'bit-identical')
+            for key in ref:
+                if not _same(ref[key], got[key]):
+                    ctx.violation('kang-restore', 'restored (%s) Kang simulation differs from the original in %s' % (how, key), inp, None, 'bit-identical')
+                    break
 
 
 def _sig(e):
@@ -181,7 +232,8 @@ def _run(ctx):
                     histories.run_real(probe, pool, td)
                 except histories.OpFailed as e:
                     _op_failed(ctx, e)
-    check_kang_roundtrip(ctx, ctx.rng)
+    for k in range(4 if ctx.tier == 'quick' else 24):
+        check_kang_roundtrip(ctx, ctx.rng, place=(k + 3) % 4)
 
 
 def oracle(ctx, budget_s=60):
@@ -198,11 +250,15 @@ def _oracle(ctx, budget_s=60):
         while t.s() < budget_s and not [v for v in ctx.violations if 'direct-sound-after-restore' not in v['signature']]:
             pool = histories.Pool(ctx.rng)
             check_roundtrip(ctx, pool, td)
+            check_kang_roundtrip(ctx, ctx.rng)
 
 
 def replay(ctx, rp):
     import numpy as np
     rng = np.random.Generator(np.random.PCG64(rp.get('seed', 0)))
+    if 'origin' in rp['input']:
+        check_kang_roundtrip(ctx, rng, fixed=(rp['input']['sides'], rp['input']['origin'], rp['input']['source']))
+        return not ctx.violations
     with tempfile.TemporaryDirectory(dir='/var/tmp') as td:
         pool = histories.Pool(rng)
         check_roundtrip(ctx, pool, td, stages=[rp['input']['stage']])
